@@ -140,6 +140,14 @@ func zzCategoryPod(i, cat int, v zzVariants) *corev1.Pod {
 	case zzUpToDateAvailable:
 		return zzPod(i, zzHashNew, 2, true, recent)
 	case zzUpToDateUnavailable:
+		if !v.notReadyFalse {
+			// just created and not scheduled yet: bound by the node-name affinity, one minute old, the scheduler
+			// has answered Unschedulable for now — unavailable, but not stuck (that takes ten minutes)
+			p := zzPod(i, zzHashNew, 0, false, recent)
+			p.Status.Phase = corev1.PodPending
+			p.Status.Conditions = append(p.Status.Conditions, corev1.PodCondition{Type: corev1.PodScheduled, Status: corev1.ConditionFalse, Reason: corev1.PodReasonUnschedulable})
+			return p
+		}
 		return zzPod(i, zzHashNew, notReady(), true, recent)
 	case zzOutdatedAvailable:
 		return zzPod(i, oldHash(), 2, true, recent)
